@@ -248,13 +248,26 @@ func tiePattern(p *PRNG, cfg Config, plan Plan) Plan {
 func init() {
 	Register(&PropSpec{
 		ID: "C14", Level: "fault_enumeration",
-		Rule: "case = C12 oracle history (validator-set changes at epoch ends, several feeders at different phases, finalised / failed / force-sealed rounds) executed once on a node that never stops; the recorded blocks are then re-executed on fresh nodes over their own database with the process-level oracle state cleared at every restart: one replica restarted after EVERY committed block, single-restart replicas (quick: 4 random heights; thorough: every height of the history), one replica with several restarts, and one replica that crashes INSIDE blocks (after BeginBlock, between two transactions, or after EndBlock before Commit; quick: 3 blocks, thorough: 8) so that the partial execution is lost and the block is executed again; app hash, every DeliverTx result (code, data, gas), validator updates and consensus-param updates must be identical at every later height; non-trivial = history with >= 5 accepted submissions, >= 20 blocks and >= 6 restart points",
+		Rule: "case = C12 oracle history (validator-set changes at epoch ends, several feeders at different phases, finalised / failed / force-sealed rounds; in half of the histories token registrations and oracle parameter updates) executed once on a node that never stops; the recorded blocks are then re-executed on fresh nodes over their own database with the process-level oracle state cleared at every restart: one replica restarted after EVERY committed block, single-restart replicas (quick: 4 random heights; thorough: every height of the history), one replica with several restarts, and one replica that crashes INSIDE blocks (after BeginBlock, between two transactions, or after EndBlock before Commit; quick: 3 blocks, thorough: 8) so that the partial execution is lost and the block is executed again; app hash, every DeliverTx result (code, data, gas), validator updates and consensus-param updates must be identical at every later height; non-trivial = history with >= 5 accepted submissions, >= 20 blocks and >= 6 restart points",
 		Assumptions: []string{"a clean stop after a committed block loses exactly the process memory; the database (MemDB behind the dbm.DB seam) keeps everything committed", "replicas are executed one after another in one OS process; the oracle's package-level variables are reset to the fresh-process state at each (re)start (verif hook VerifResetOnce + exported Reset* functions)"},
 		QuickRuns:   160, ThoroughRuns: 1500,
 		GenConfig: oracleConfig,
 		GenPlan: func(p *PRNG, cfg Config, tier string) Plan {
 			o := OracleGenOpts{ValsetChanges: p.Chance(2, 3), MinBlocks: 25, MaxBlocks: 60}
-			return GenOraclePlan(p, cfg, o)
+			plan := GenOraclePlan(p, cfg, o)
+			if p.Chance(1, 2) {
+				// oracle parameter changes inside the history (token registrations add tokens and
+				// feeders, parameter updates change the price-size limit): restarts right after them
+				for i := range plan.Blocks {
+					if p.Chance(1, 6) {
+						plan.Blocks[i].Ops = append(plan.Blocks[i].Ops, Op{K: "regtoken", A: p.Intn(4), D: p.Intn(3), E: []int{6, 8, 18}[p.Intn(3)], S: []string{"", "NEWX,chain101,18,4", "NEWY,chain101,8,1"}[p.Intn(3)]})
+					}
+					if p.Chance(1, 10) {
+						plan.Blocks[i].Ops = append(plan.Blocks[i].Ops, Op{K: "mparams", A: p.Intn(3), D: 1, N: int64(p.Intn(4))})
+					}
+				}
+			}
+			return plan
 		},
 		Monitors: func() []Monitor { return []Monitor{&replicaStats{}} },
 		Exec:     c14Exec,
